@@ -22,7 +22,7 @@ KAPPA_MAX = 1e10
 RULE = ("clouds of 6..24 pairwise distinct points (jittered lattice or uniform doubles, coordinate scale 1..1e4; integer lattices "
         "for the dtype streams), data of varied magnitude (two components for vector gridders), weights log-uniform over two "
         "decades, 1..12 query points strictly inside the convex hull. Gridders: Spline (undamped / damped / separate forces), "
-        "Trend degree 0..3, VectorSpline2D (undamped / damped), KNeighbors (k = 1..n; mean, median, min, max), Linear, Cubic, "
+        "Trend degree 0..3, VectorSpline2D (undamped / damped / as many explicit forces as data points), KNeighbors (k = 1..n; mean, median, min, max), Linear, Cubic, "
         "Chain(Trend, Spline), Chain(Trend, KNeighbors), Vector(Trend, Spline), Vector(KNeighbors, Linear), "
         "Chain(Vector(Trend, Trend), VectorSpline2D). For each base execution (1-D float64 arrays) a variant: (perm) a random "
         "permutation of the data points with their data and weights; (layout) every fit / predict array independently as C "
@@ -137,6 +137,22 @@ def k_vspline(damping=None):
     return f
 
 
+def k_spline_forces_d(damping):
+    def f(e, n, w, conf):
+        import verde as vd
+        A = vd.Spline().jacobian((e, n), (arr(conf["fe"]), arr(conf["fn"])))
+        return kappa_ls(A, None if w is None else w[0], damping)
+    return f
+
+
+def k_vspline_forces(damping=None):
+    def f(e, n, w, conf):
+        import verde as vd
+        A = vd.VectorSpline2D(poisson=0.5, mindist=conf["mindist"]).jacobian((e, n), (arr(conf["fe"]), arr(conf["fn"])))
+        return kappa_ls(A, None if w is None else np.concatenate(w), damping)
+    return f
+
+
 def k_max(*fs):
     return lambda e, n, w, conf: max(f(e, n, None, conf) for f in fs)
 
@@ -146,6 +162,16 @@ def gridders():
         Gridder("spline", "vd.Spline()", "ls", kappa=k_spline()),
         Gridder("spline-damped", "vd.Spline(damping=1e-3)", "ls", weights=True, kappa=k_spline(1e-3)),
         Gridder("spline-forces", "vd.Spline(force_coords=(np.array(FE), np.array(FN)))", "ls", weights=True, kappa=k_spline_forces, minpts=8),
+        # explicit force_coords with EXACTLY as many forces as data points (a square, non-symmetric Jacobian):
+        # at separate locations (GRIDX, GRIDY) and at the data points themselves in another order (PERMX, PERMY)
+        Gridder("spline-nforces", "vd.Spline(force_coords=(np.array(GRIDX), np.array(GRIDY)))", "ls", weights=True, kappa=k_spline_forces_d(None)),
+        Gridder("spline-nforces-damped", "vd.Spline(damping=1e-3, force_coords=(np.array(GRIDX), np.array(GRIDY)))", "ls", weights=True,
+                kappa=k_spline_forces_d(1e-3)),
+        Gridder("spline-shuffled-forces", "vd.Spline(force_coords=(np.array(PERMX), np.array(PERMY)))", "ls", kappa=k_spline_forces_d(None)),
+        Gridder("vspline-nforces-damped", "vd.VectorSpline2D(poisson=0.5, mindist=MIND, damping=1e-2, force_coords=(np.array(GRIDX), np.array(GRIDY)))",
+                "ls", ncomp=2, weights=True, kappa=k_vspline_forces(1e-2)),
+        Gridder("vspline-shuffled-forces", "vd.VectorSpline2D(poisson=0.5, mindist=MIND, force_coords=(np.array(PERMX), np.array(PERMY)))",
+                "ls", ncomp=2, kappa=k_vspline_forces()),
         Gridder("vspline", "vd.VectorSpline2D(poisson=0.5, mindist=MIND)", "ls", ncomp=2, kappa=k_vspline(), minpts=4),
         Gridder("vspline-damped", "vd.VectorSpline2D(poisson=0.5, mindist=MIND, damping=1e-2)", "ls", ncomp=2, weights=True, kappa=k_vspline(1e-2)),
         Gridder("linear", "vd.Linear()", "exact"),
@@ -258,6 +284,22 @@ def problem(rnd, g, n=None, m=None, int_coords=False, int_data=False, int_query=
         conf["fe"] = [float(e[i] + 0.01 * scale * rnd.uniform(-1, 1)) for i in idx]
         conf["fn"] = [float(nn[i] + 0.01 * scale * rnd.uniform(-1, 1)) for i in idx]
         expr = expr.replace("FE", repr(conf["fe"])).replace("FN", repr(conf["fn"]))
+    if "GRIDX" in expr:
+        # n forces on a jittered lattice over the data's bounding box: as many as data points, elsewhere
+        k = int(np.ceil(n ** 0.5))
+        cells = [(i, j) for i in range(k) for j in range(k)]
+        rnd.shuffle(cells)
+        cells = sorted(cells[:n])
+        conf["fe"] = [float(e.min() + np.ptp(e) * (c[0] + 0.3 + 0.4 * rnd.random()) / k) for c in cells]
+        conf["fn"] = [float(nn.min() + np.ptp(nn) * (c[1] + 0.3 + 0.4 * rnd.random()) / k) for c in cells]
+        expr = expr.replace("GRIDX", repr(conf["fe"])).replace("GRIDY", repr(conf["fn"]))
+    if "PERMX" in expr:
+        p = list(range(n))
+        while p == list(range(n)):
+            rnd.shuffle(p)
+        conf["fe"] = [float(e[i]) for i in p]
+        conf["fn"] = [float(nn[i]) for i in p]
+        expr = expr.replace("PERMX", repr(conf["fe"])).replace("PERMY", repr(conf["fn"]))
     if "KNN" in expr:
         conf["k"] = rnd.randint(1, min(n, 6)) if rnd.random() < 0.8 else n
         expr = expr.replace("KNN", str(conf["k"]))
@@ -656,10 +698,11 @@ def linear_case(rnd, g, control=False):
 # ---------------------------------------------------------------------------
 # generator
 # ---------------------------------------------------------------------------
-ALL = ["spline", "spline-damped", "spline-forces", "vspline", "vspline-damped", "linear", "linear-rescale", "cubic",
+ALL = ["spline", "spline-damped", "spline-forces", "spline-nforces", "spline-nforces-damped", "spline-shuffled-forces",
+       "vspline", "vspline-damped", "vspline-nforces-damped", "vspline-shuffled-forces", "linear", "linear-rescale", "cubic",
        "chain-trend-spline", "chain-trend-knn", "vector-trend-spline", "vector-knn-linear", "chain-vtrend-vspline",
        "trend-0", "trend-1", "trend-2", "trend-3", "knn-mean", "knn-median", "knn-min", "knn-max"]
-SMALL_VEC = {"vspline", "vspline-damped", "chain-vtrend-vspline"}
+SMALL_VEC = {"vspline", "vspline-damped", "chain-vtrend-vspline", "vspline-nforces-damped", "vspline-shuffled-forces"}
 
 
 def npts(rnd, name):
